@@ -67,11 +67,7 @@ func (o *UntypedRequestBinder) Bind(request *http.Request, routeParams RoutePara
 		if isMap {
 			tpe := binder.Type()
 			if tpe == nil {
-				if param.Schema.Type.Contains(typeArray) {
-					tpe = reflect.TypeOf([]interface{}{})
-				} else {
-					tpe = reflect.TypeOf(map[string]interface{}{})
-				}
+				tpe = bodyTargetType(param.Schema)
 			}
 			target = reflect.Indirect(reflect.New(tpe))
 		}
@@ -113,6 +109,19 @@ func (o *UntypedRequestBinder) Bind(request *http.Request, routeParams RoutePara
 	}
 
 	return nil
+}
+
+// bodyTargetType is the type a body parameter is decoded into when the target is a map: objects and arrays keep their
+// usual dynamic types, any other schema (string, number, boolean, untyped) is decoded as the JSON document denotes.
+func bodyTargetType(schema *spec.Schema) reflect.Type {
+	switch {
+	case schema != nil && schema.Type.Contains(typeArray):
+		return reflect.TypeOf([]interface{}{})
+	case schema == nil || schema.Type.Contains("object"):
+		return reflect.TypeOf(map[string]interface{}{})
+	default:
+		return reflect.TypeOf((*interface{})(nil)).Elem()
+	}
 }
 
 // validatable returns a bound value as the validators expect it: values of named string types
